@@ -50,7 +50,8 @@ def run_check(check_id, tier):
     for s in specs:
         s.setdefault("tier", tier)
         s.setdefault("seed", seed)
-    results = runner.run_shards(check_id, specs, timeout_s=getattr(mod, "SHARD_TIMEOUT", {}).get(tier, 1200))
+    results = runner.run_shards(check_id, specs, timeout_s=getattr(mod, "SHARD_TIMEOUT", {}).get(tier, 1200),
+                                max_workers=getattr(mod, "MAX_WORKERS", None))
     inconclusive = []
     good = []
     for spec, res, note in results:
